@@ -65,6 +65,8 @@ pub fn fault_exprs() -> Vec<(&'static str, Expr)> {
         ("slot not a string", ex(EK::Interp(vec![StrPart::Text(vec![('a', Spell::Raw)]), StrPart::Slot(Box::new(var("num")))]))),
         ("slot fails", ex(EK::Interp(vec![StrPart::Text(vec![('a', Spell::Raw)]), StrPart::Slot(Box::new(var("nope")))]))),
         ("print of invalid UTF-8", call(var("print"), vec![index(var("txt"), int(1))])),
+        ("print of a list holding invalid UTF-8", call(var("print"), vec![list(vec![int(1), string("ok"), index(var("txt"), int(1))])])),
+        ("print of an object holding invalid UTF-8", call(var("print"), vec![obj(vec![pair("a", int(1)), pair("m", list(vec![index(var("txt"), int(2))])), pair("z", int(2))])])),
         ("len of invalid UTF-8", call(tprop(index(var("txt"), int(1)), "len"), vec![])),
         ("key of invalid UTF-8", index(var("obj"), index(var("txt"), int(1)))),
     ]
